@@ -101,7 +101,15 @@ def check_entropy(ctx):
                       'no random / secrets / os.urandom / private Generator / time-seeded state')
     funcs = ctx.prog.all_functions()
     n = 0
-    for fi, call, dotted in api.lib_call_sites(ctx.prog, funcs):
+    # references, not only call sites: `functools.partial(np.random.normal, ...)` draws as well
+    sites, seen_ = [], set()
+    for fi, node, dotted in list(api.lib_call_sites(ctx.prog, funcs)) + list(api.lib_refs(ctx.prog, funcs)):
+        ref = node.func if isinstance(node, ast.Call) else node
+        k_ = (fi.qualname, getattr(ref, 'lineno', 0), getattr(ref, 'col_offset', 0), dotted)
+        if k_ not in seen_:
+            seen_.add(k_)
+            sites.append((fi, node, dotted))
+    for fi, call, dotted in sites:
         if dotted.startswith(('numpy.random', 'random.', 'secrets.', 'os.urandom', 'uuid.')) or dotted in ('random', 'os.urandom'):
             n += 1
             ctx.check(dotted == 'numpy.random.normal', 'C15.4', f"{fi.name}: random source {dotted}", 'not the global-generator normal draw', fi.loc(call),
